@@ -20,9 +20,9 @@ RULE = (
     "anonymizers with preserved networks next to x constructed between the forward and the undoing instance): "
     "U.deanonymize(F.anonymize(x)) == x and F'.anonymize(U'.deanonymize(y0)) == y0 with F, U, F', U' distinct "
     "instances; file: lines of standalone address tokens of both families in generated spellings, masks, preserved "
-    "addresses, addresses constructed so that their image is mask-shaped, near-miss tokens and words; forward pass by "
+    "addresses, addresses constructed so that their image is mask-shaped or a special IPv6 address (link-local, loopback ...), near-miss tokens and words; forward pass by "
     "one FileAnonymizer, undo by a new one; expected = input with address tokens canonicalised (masks/preserved as "
-    "written; mask-shaped images stay). sameobj: forward and undo requests for the same texts interleaved on ONE pair of "
+    "written; mask-shaped images stay). bulk: one forward anonymizer maps 24000/60000 addresses, a fresh instance undoes a sample; sameobj: forward and undo requests for the same texts interleaved on ONE pair of "
     "anonymizer objects, each answer compared with fresh objects. cli: the same through `python -m netconan.netconan` -a then -u in two "
     "processes. Non-trivial = address neither mask-shaped nor preserved whose image differs from it (int), file case "
     "with >= 2 such addresses; distinct by case."
@@ -117,6 +117,10 @@ def _resolve(case):
                 U = G.mk4(cfg)
             n = U.deanonymize(sg["mask"])
             segs.append({"t": "v4", "s": G.v4_canon(n) + sg.get("suffix", ""), "n": n, "kind": "mask-image"})
+        elif sg["t"] == "v6img":
+            # an address whose IMAGE is a chosen special address (link-local, loopback, mapped ...)
+            n = G.mk6(cfg).deanonymize(sg["target"])
+            segs.append({"t": "v6", "s": str(ipaddress.IPv6Address(n)), "n": n, "kind": "special-image"})
         else:
             segs.append(sg)
     return segs
@@ -205,6 +209,35 @@ def check_sameobj(case, ev):
     return None
 
 
+def check_bulk(case, ev):
+    """case: {fam, cfg, n, start, stride}: ONE forward anonymizer maps n addresses; a FRESH instance
+    must undo a sample of the images (first, middle and last ones)."""
+    fam, cfg, n = case["fam"], case["cfg"], case["n"]
+    W = 32 if fam == 4 else 128
+    F, exc = guarded(G.mk, cfg, fam)
+    if exc is not None:
+        return core.exc_finding(exc, case, "ctor/")
+    mult = case["stride"] | 1
+    pairs = []
+    for i in range(n):
+        x = (case["start"] + i * mult) & ((1 << W) - 1)
+        y, exc = guarded(F.anonymize, x)
+        if exc is not None:
+            return core.exc_finding(exc, case, "anonymize/")
+        if i % max(1, n // 300) == 0 or i >= n - 50:
+            pairs.append((x, y))
+    ev.bulk(1, 1, sample=case)
+    ev.notes["addresses_loaded"] = ev.notes.get("addresses_loaded", 0) + n
+    U = G.mk(cfg, fam)
+    for x, y in pairs:
+        back, exc = guarded(U.deanonymize, y)
+        if exc is not None:
+            return core.exc_finding(exc, case, "deanonymize/")
+        if back != x:
+            return Finding("bulk/fresh-instance-cannot-undo-image-from-long-run:v%d" % fam, "cfg=%r: address %d mapped to %d during a run of %d addresses; a fresh instance undoes that to %d" % (cfg, x, y, n, back), case)
+    return None
+
+
 def check_cli(case, ev):
     """Forward and undo in two separate interpreter processes through the real command line."""
     cfg = case["cfg"]
@@ -244,7 +277,7 @@ def check_cli(case, ev):
     return None
 
 
-REPLAY = {"int": check_int, "file": check_file, "cli": check_cli, "sameobj": check_sameobj}
+REPLAY = {"bulk": check_bulk, "int": check_int, "file": check_file, "cli": check_cli, "sameobj": check_sameobj}
 
 
 @st.composite
@@ -282,6 +315,9 @@ def _file_case(draw, max_lines=4, modes=("default", "empty", "list", "nested")):
             # an address whose image is mask shaped (resolved at check time with the real code)
             m = draw(st.sampled_from(MASKS))
             segs = segs + [{"t": "sep", "s": " "}, {"t": "v4img", "mask": m, "suffix": draw(st.sampled_from(["", "/24"]))}]
+        if draw(st.integers(0, 5)) == 0:
+            tgt = draw(st.sampled_from([(0xFE80 << 112) | 1, (0xFE80 << 112) | 0xABCD, (0xFEBF << 112) | 5, 1, 0, (0xFFFF << 32) | 0x0A000001, 0xFF02 << 112 | 1, (0x2001 << 112) | (0xDB8 << 96) | 1]))
+            segs = segs + [{"t": "sep", "s": " "}, {"t": "v6img", "target": tgt}]
         lines.append(segs)
     return {"cfg": cfg, "lines": lines}
 
@@ -304,6 +340,21 @@ def t_sameobj(shard, nshards, seed, ev, known, n=200):
     return core.hyp_drive(_sameobj_case(), check_sameobj, n, seed, ev, known, check_name="sameobj")
 
 
+@st.composite
+def _bulk_case(draw, n):
+    fam = draw(st.sampled_from([4, 4, 6]))
+    W = 32 if fam == 4 else 128
+    cfg = draw(G.config())
+    cfg["B4"] = draw(st.sampled_from([0, 0, 4]))
+    cfg["B6"] = draw(st.sampled_from([0, 8]))
+    return {"fam": fam, "cfg": cfg, "n": n if fam == 4 else n // 8, "start": draw(st.integers(0, (1 << W) - 1)), "stride": draw(st.integers(1 << (W - 14), (1 << W) - 1))}
+
+
+def t_bulk(shard, nshards, seed, ev, known, n=1, size=24000):
+    cases = core.collect_cases(_bulk_case(size), n + 3, seed)[3:]
+    return core.enum_drive(cases, check_bulk, ev, known, "bulk")
+
+
 def t_int(shard, nshards, seed, ev, known, n=1000):
     return core.hyp_drive(_int_case(), check_int, n, seed, ev, known, check_name="int")
 
@@ -322,5 +373,6 @@ def plan(tier):
         Task("int", t_int, shards=4 if q else 16, n=1000 if q else 30000),
         Task("file", t_file, shards=4 if q else 16, n=250 if q else 4000),
         Task("cli", t_cli, shards=2 if q else 16, n=6 if q else 40),
+        Task("bulk", t_bulk, shards=3 if q else 8, n=1 if q else 4, size=24000 if q else 60000),
         Task("sameobj", t_sameobj, shards=3 if q else 16, n=250 if q else 4000),
     ]
